@@ -1099,7 +1099,10 @@ class Runner:
         Start a timer to `kill` our subprocess after ``timeout`` seconds.
         """
         if timeout is not None:
-            self._timer = threading.Timer(timeout, self.kill)
+            # NOTE: the value may come out of the shell environment as text
+            # (the setting defaults to None, so nothing told the env loader to
+            # cast it); a Timer handed a string dies at once in its own thread.
+            self._timer = threading.Timer(float(timeout), self.kill)
             self._timer.start()
 
     def read_proc_stdout(self, num_bytes: int) -> Optional[bytes]:
